@@ -16,6 +16,7 @@ import FileD.Lemmas.Dec.Postgres
 import FileD.Lemmas.Dec.Syslog3164
 import FileD.Lemmas.Dec.CSV
 import FileD.Lemmas.Dec.Nginx
+import FileD.Lemmas.Dec.Syslog5424
 import FileD.Model.Dec.Raw
 namespace FileD.PropsC12
 open FileD GoSlice FileD.Dec
@@ -59,6 +60,17 @@ theorem syslog_priority_total (data : Bytes) :
 -- "<34>Oct 11 22:14:15 h a[1]" (pre-fix: panic at data[offset+1])
 example : Syslog3164.decode false false
     [60, 51, 52, 62, 79, 99, 116, 32, 49, 49, 32, 50, 50, 58, 49, 52, 58, 49, 53, 32, 104, 32, 97, 91, 49, 93] = .ok none := by rfl
+
+/-- **syslog RFC5424, totality**: header fields, timestamp validation, the structured-data state
+    machine (`parseStructuredData`), message and BOM handling. -/
+theorem s5424_total (facStr sevStr : Bool) (data : Bytes) : ∃ r, Syslog5424.decode facStr sevStr data = .ok r :=
+  Syslog5424.decode_total facStr sevStr data
+
+-- "<34>1 - - - - - [ab ]" and `[ab "` (pre-fix: panic at data[idx-1] with idx = 0)
+example : Syslog5424.decode false false
+    [60, 51, 52, 62, 49, 32, 45, 32, 45, 32, 45, 32, 45, 32, 45, 32, 91, 97, 98, 32, 93] = .ok none := by rfl
+example : Syslog5424.decode false false
+    [60, 51, 52, 62, 49, 32, 45, 32, 45, 32, 45, 32, 45, 32, 45, 32, 91, 97, 98, 32, 34] = .ok none := by rfl
 
 /-- **nginx error log, totality**: for every byte string, with and without custom-field extraction
     and for every verdict of the `unicode.IsLetter` oracle. -/
